@@ -30,7 +30,9 @@ func (mr *memdbReleaser) Release() {
 
 func (db *DB) newRawIterator(auxm *memDB, auxt tFiles, slice *util.Range, ro *opt.ReadOptions) iterator.Iterator {
 	strict := opt.GetStrict(db.s.o.Options, ro, opt.StrictReader)
+	verifPoint("iter:seq-mems")
 	em, fm := db.getMems()
+	verifPoint("iter:mems-version")
 	v := db.s.version()
 
 	tableIts := v.getIterators(slice, ro)
